@@ -1,6 +1,7 @@
 package redis
 
 import (
+	"math"
 	"strconv"
 	"time"
 
@@ -71,7 +72,16 @@ func gFloat(name string) ([]byte, float64) {
 
 // gScoreBound draws a score range bound: a float literal with an optional "(" exclusive marker.
 func gScoreBound(name string) ([]byte, float64, bool) {
-	text, f := gFloat(name)
+	var text []byte
+	var f float64
+	if k := vsymChoice(name+".inf", 4); k > 0 {
+		// the infinite bounds of Redis score ranges, with or without the exclusive marker
+		text = []byte([]string{"inf", "+inf", "-inf"}[k-1])
+		f = []float64{math.Inf(1), math.Inf(1), math.Inf(-1)}[k-1]
+		vsymCover("infinite-bound")
+	} else {
+		text, f = gFloat(name)
+	}
 	if vsymChoice(name+".excl", 2) == 1 {
 		return append([]byte{'('}, text...), f, true
 	}
